@@ -72,7 +72,7 @@ def invalid_cases(rng, kind, thorough):
         full = ("\r\n".join(good) + "\r\n").encode()
         for _ in range(8 if thorough else 4):
             yield ("truncated-byte", "", full[:rng.randint(1, len(full) - 6)])
-        for c in (CTRL if thorough else ["\x00", "\x01", "\x1b"]):
+        for c in (CTRL if thorough else ["\x00", "\x01", "\x1b", "\x7f", "\x08", "\x1f"]):
             lines = [("NOTE:bad" + c + "char") if l.startswith("NOTE:") else l for l in good]
             yield ("control-char", "NOTE U+%04X" % ord(c), ("\r\n".join(lines) + "\r\n").encode("utf-8"))
         # ... and where a parser that looks at decoded text values only does not see them: structured and
